@@ -37,9 +37,9 @@ theorem Here.emit_encode {w : World} {P0 : List Op} {s : St} {d : Dec} (h : Here
 
 theorem thetaStep_step (w : World) (P0 : List Op) (qn : Nat) (e : ESt) (d : BSt) :
     Ext0 e.s (Opus.CeltBandsEnc.thetaStep e qn).2.s ∧
-    (Sim w P0 e d → w.IsPrefix (P0 ++ (Opus.CeltBandsEnc.thetaStep e qn).2.s.ops) →
+    (∀ {A : List Op}, Sim w P0 A e d → w.IsPrefix (P0 ++ (Opus.CeltBandsEnc.thetaStep e qn).2.s.ops) →
       (Opus.CeltBands.thetaStep d qn).1 = (Opus.CeltBandsEnc.thetaStep e qn).1 ∧
-      Sim w P0 (Opus.CeltBandsEnc.thetaStep e qn).2 (Opus.CeltBands.thetaStep d qn).2) := by
+      Sim w P0 A (Opus.CeltBandsEnc.thetaStep e qn).2 (Opus.CeltBands.thetaStep d qn).2) := by
   refine ⟨Ext0.step _ _, fun hs hp => ?_⟩
   simp only [Opus.CeltBandsEnc.thetaStep] at hp ⊢
   obtain ⟨m1, m2, hn⟩ := hs.here.pop.emit_encode _ _ _ hp
@@ -53,13 +53,15 @@ theorem thetaStep_step (w : World) (P0 : List Op) (qn : Nat) (e : ESt) (d : BSt)
     · rw [if_neg hc, if_neg hc] at m'
       rw [if_neg (by omega)]; omega
   simp only [Opus.CeltBands.thetaStep, BSt.decode, BSt.update, hfs, hx]
-  exact ⟨trivial, ⟨hn, hs.rem⟩⟩
+  refine ⟨trivial, ⟨hn, hs.rem, ?_⟩⟩
+  refine hs.tr_emit (.encode _ _ _) _ ?_
+  simp only [evOf, hfs, List.reverse_cons, List.reverse_nil, List.nil_append, List.cons_append]
 
 theorem thetaTri_step (w : World) (P0 : List Op) (qn : Nat) (heven : qn % 2 = 0) (e : ESt) (d : BSt) :
     Ext0 e.s (Opus.CeltBandsEnc.thetaTri e qn).2.s ∧
-    (Sim w P0 e d → w.IsPrefix (P0 ++ (Opus.CeltBandsEnc.thetaTri e qn).2.s.ops) →
+    (∀ {A : List Op}, Sim w P0 A e d → w.IsPrefix (P0 ++ (Opus.CeltBandsEnc.thetaTri e qn).2.s.ops) →
       (Opus.CeltBands.thetaTri d qn).1 = (Opus.CeltBandsEnc.thetaTri e qn).1 ∧
-      Sim w P0 (Opus.CeltBandsEnc.thetaTri e qn).2 (Opus.CeltBands.thetaTri d qn).2) := by
+      Sim w P0 A (Opus.CeltBandsEnc.thetaTri e qn).2 (Opus.CeltBands.thetaTri d qn).2) := by
   refine ⟨Ext0.step _ _, fun hs hp => ?_⟩
   have hp' : w.IsPrefix (P0 ++ (e.s.pop.2.emit (.encode (Opus.CeltBandsEnc.triFl qn e.s.pop.1.toNat)
       (Opus.CeltBandsEnc.triFl qn e.s.pop.1.toNat + Opus.CeltBandsEnc.triFs qn e.s.pop.1.toNat)
@@ -79,18 +81,24 @@ theorem thetaTri_step (w : World) (P0 : List Op) (qn : Nat) (heven : qn % 2 = 0)
   have hdec : (Opus.CeltBands.thetaTri d qn).1 = OpusProofs.Tri.decIt qn fm ∧
       (Opus.CeltBands.thetaTri d qn).2.c = decUpdate (RangeCoder.decode d.c ((qn / 2 + 1) * (qn / 2 + 1))).2
         (OpusProofs.Tri.decFl qn fm) (OpusProofs.Tri.decFl qn fm + OpusProofs.Tri.decFs qn fm) ((qn / 2 + 1) * (qn / 2 + 1)) ∧
-      (Opus.CeltBands.thetaTri d qn).2.rem = d.rem := by
+      (Opus.CeltBands.thetaTri d qn).2.rem = d.rem ∧
+      (Opus.CeltBands.thetaTri d qn).2.tr = Opus.CeltSyms.CEv.upd (OpusProofs.Tri.decFl qn fm)
+        (OpusProofs.Tri.decFl qn fm + OpusProofs.Tri.decFs qn fm) ((qn / 2 + 1) * (qn / 2 + 1)) ::
+        Opus.CeltSyms.CEv.dec ((qn / 2 + 1) * (qn / 2 + 1)) fm :: d.tr := by
     simp only [Opus.CeltBands.thetaTri, BSt.decode, BSt.update, hfm]
     unfold OpusProofs.Tri.decFl OpusProofs.Tri.decFs OpusProofs.Tri.decIt
     by_cases hb : fm < qn / 2 * (qn / 2 + 1) / 2
-    · simp only [hb, if_true]; exact ⟨trivial, trivial, trivial⟩
-    · simp only [hb, if_false]; exact ⟨trivial, trivial, trivial⟩
-  obtain ⟨d1, d2, d3⟩ := hdec
+    · simp only [hb, if_true]; exact ⟨trivial, trivial, trivial, trivial⟩
+    · simp only [hb, if_false]; exact ⟨trivial, trivial, trivial, trivial⟩
+  obtain ⟨d1, d2, d3, d4⟩ := hdec
   rw [t1] at d1
-  rw [t2, t3] at d2
-  refine ⟨d1, ⟨⟨hn.enc, ?_⟩, ?_⟩⟩
+  rw [t2, t3] at d2 d4
+  refine ⟨d1, ⟨⟨hn.enc, ?_⟩, ?_, ?_⟩⟩
   · rw [d2]; exact hn.dec
   · rw [d3]; exact hs.rem
+  · refine hs.tr_emit (.encode _ _ _) _ ?_
+    rw [d4]
+    simp only [evOf, hft, hfm, List.reverse_cons, List.reverse_nil, List.nil_append, List.cons_append]
 
 /-- the symbol of `compute_theta`; `qn` is 1 or even -/
 theorem thetaWrite_step (w : World) (P0 : List Op) (stereo : Bool) (N : Nat) (b : Int) (B0 qn : Nat)
@@ -186,15 +194,15 @@ theorem leaf_step (w : World) (P0 : List Op) (i lm1 N : Nat) (b : Int) :
   · split
     · exact Ext0.step _ _
     · exact Ext0.refl _
-  · intro hs hp
+  · intro A hs hp
     rw [← hs.rem]
     generalize Opus.CeltBands.lowerQ (Opus.CeltBands.rowOf lm1 i)
       (Rate.bits2pulsesRow (Opus.CeltBands.cacheAt (Opus.CeltBands.rowOf lm1 i)) b)
       (Opus.CeltBands.p2b (Opus.CeltBands.rowOf lm1 i) (Rate.bits2pulsesRow (Opus.CeltBands.cacheAt (Opus.CeltBands.rowOf lm1 i)) b))
       (e.rem - Opus.CeltBands.p2b (Opus.CeltBands.rowOf lm1 i)
         (Rate.bits2pulsesRow (Opus.CeltBands.cacheAt (Opus.CeltBands.rowOf lm1 i)) b)) = r at hp ⊢
-    have hs' : Sim w P0 { e with rem := r.2 }
-        { d with rem := r.2, fault := d.fault || !Opus.CeltBands.rowOk (Opus.CeltBands.rowOf lm1 i) } := ⟨hs.here, rfl⟩
+    have hs' : Sim w P0 _ { e with rem := r.2 }
+        { d with rem := r.2, fault := d.fault || !Opus.CeltBands.rowOk (Opus.CeltBands.rowOf lm1 i) } := ⟨hs.here, rfl, hs.tr⟩
     by_cases hq : r.1 ≠ 0
     · simp only [hq, if_true, ne_eq, not_false_eq_true] at hp ⊢
       exact ((uint_step w P0 _ _ _).2 hs' hp).2
@@ -230,7 +238,7 @@ theorem splitGo_step (w : World) (P0 : List Op) (fe : Int → ESt → ESt) (fd :
   unfold Opus.CeltBandsEnc.splitGo Opus.CeltBands.splitGo
   have key := splitRun_step w P0 fe fd hf (Opus.CeltBands.splitBits th.b delta) (th.b - Opus.CeltBands.splitBits th.b delta) th.itheta
     { e with rem := e.rem - th.qalloc } { d with rem := d.rem - th.qalloc }
-  refine ⟨key.1, fun hs hp => key.2 ⟨hs.here, by show e.rem - th.qalloc = d.rem - th.qalloc; rw [hs.rem]⟩ hp⟩
+  refine ⟨key.1, fun hs hp => key.2 ⟨hs.here, by show e.rem - th.qalloc = d.rem - th.qalloc; rw [hs.rem], hs.tr⟩ hp⟩
 
 theorem quantPartition_step (w : World) (P0 : List Op) (i : Nat) : ∀ (lm1 N : Nat) (b : Int) (B : Nat),
     Step w P0 (Opus.CeltBandsEnc.quantPartition i lm1 N b B) (Opus.CeltBands.quantPartition i lm1 N b B)
@@ -255,7 +263,7 @@ theorem quantPartition_step (w : World) (P0 : List Op) (i : Nat) : ∀ (lm1 N : 
         (fun bits => quantPartition_step w P0 i lm (N / 2) bits ((B + 1) / 2)) th delta
       have g1 := hg TE.1 (Opus.CeltBands.adjustDelta B TE.1.itheta TE.1.delta (N / 2) ((lm : Int) - 1)) TE.2 TD.2
       refine ⟨ht.1.trans g1.1, fun hs hp => ?_⟩
-      obtain ⟨a, b'⟩ := ht.2 ⟨hs.here, hs.rem⟩ (prefix_of_ext0 g1.1 hp)
+      obtain ⟨a, b'⟩ := ht.2 ⟨hs.here, hs.rem, hs.tr⟩ (prefix_of_ext0 g1.1 hp)
       rw [a]
       exact g1.2 b' hp
     · simp only [hc, if_false]
@@ -281,12 +289,12 @@ theorem stereoN2_step (w : World) (P0 : List Op) (i lm1 B : Nat) (tf : Int) (th 
     have b := quantBand_step w P0 i lm1 2 B tf (th.b - 8) ({ e with rem := e.rem - (th.qalloc + 8) }.raw 1).2
       ({ d with rem := d.rem - (th.qalloc + 8) }.raw 1).2
     refine ⟨a.1.trans b.1, fun hs hp => ?_⟩
-    have a2 := (a.2 ⟨hs.here, by show e.rem - (th.qalloc + 8) = d.rem - (th.qalloc + 8); rw [hs.rem]⟩
+    have a2 := (a.2 ⟨hs.here, by show e.rem - (th.qalloc + 8) = d.rem - (th.qalloc + 8); rw [hs.rem], hs.tr⟩
       (prefix_of_ext0 b.1 hp)).2
     exact b.2 a2 hp
   · simp only [h, if_false]
     have b := quantBand_step w P0 i lm1 2 B tf th.b { e with rem := e.rem - th.qalloc } { d with rem := d.rem - th.qalloc }
-    exact ⟨b.1, fun hs hp => b.2 ⟨hs.here, by show e.rem - th.qalloc = d.rem - th.qalloc; rw [hs.rem]⟩ hp⟩
+    exact ⟨b.1, fun hs hp => b.2 ⟨hs.here, by show e.rem - th.qalloc = d.rem - th.qalloc; rw [hs.rem], hs.tr⟩ hp⟩
 
 theorem quantBandStereo_step (w : World) (P0 : List Op) (i lm1 N B : Nat) (tf : Int) (intensity : Nat) (b : Int) :
     Step w P0 (Opus.CeltBandsEnc.quantBandStereo i lm1 N B tf intensity b)
@@ -349,6 +357,6 @@ theorem bandLoop_step (w : World) (P0 : List Op) (p : Opus.CeltBands.BandsIn) : 
     refine ⟨a.1.trans b.1, fun hs hp => ?_⟩
     obtain ⟨_, t⟩ := hs.tells (prefix_of_ext0 (a.1.trans b.1) hp)
     rw [t]
-    exact b.2 (a.2 ⟨hs.here, rfl⟩ (prefix_of_ext0 b.1 hp)) hp
+    exact b.2 (a.2 ⟨hs.here, rfl, hs.tr⟩ (prefix_of_ext0 b.1 hp)) hp
 
 end OpusProofs.CeltHdr
